@@ -38,6 +38,10 @@ type FaultCase struct {
 	// WriteDead: every transport write fails with a plain error from the
 	// start (no automatic reply gets out); what is read is unaffected.
 	WriteDead bool `json:"write_dead,omitempty"`
+	// JSON: every message is a JSON document (numbers, strings, arrays whose
+	// proper prefixes are often documents too) and the stream is consumed with
+	// ReadJSON: a value may be returned only for a message that arrived whole.
+	JSON bool `json:"json,omitempty"`
 }
 
 type faultKind struct {
@@ -77,6 +81,14 @@ func genFaultCase(t *rapid.T) FaultCase {
 	}
 	c.Later = rapid.SampledFrom([]int{1, 3, 3, 10, 900}).Draw(t, "later")
 	c.OnlyOffset = -1
+	if rapid.IntRange(0, 7).Draw(t, "json_stream") == 0 {
+		c.JSON = true
+		for i := range c.S.Msgs {
+			js := rapid.SampledFrom([]string{"1234567890", "12.5e10", " 77 ", "-40000000001", `"a string value"`, "[1,2,3,40000]", `{"a":1234,"b":[true,null]}`, "true", "123456789012345678901234567890"}).Draw(t, "json_doc")
+			c.S.Msgs[i].Op = 1
+			c.S.Msgs[i].Data = Payload{Len: len(js), Kind: "raw", Raw: []byte(js)}
+		}
+	}
 	c.ReArm = rapid.Bool().Draw(t, "rearm")
 	c.Limit = rapid.SampledFrom([]int{0, 0, 1, 2}).Draw(t, "limit")
 	c.LocalClose = rapid.IntRange(0, 3).Draw(t, "local_close") == 0
@@ -313,7 +325,60 @@ func runFaultJoin(c FaultCase, model *Model, off int, fk faultKind, later int, o
 	return nil
 }
 
+// runFaultJSON is runFault for a stream consumed through ReadJSON.
+func runFaultJSON(c FaultCase, model *Model, off int, fk faultKind, o *Obs) error {
+	tr := xport.NewScriptConn(nil, nil)
+	tr.NoLog = true
+	conn, err := NewConn(c.R, tr, nil)
+	if err != nil {
+		return err
+	}
+	tr.SetInput(model.Wire, c.Chunks)
+	tr.SetReadFault(&xport.ReadFault{Offset: off, Kind: fk.kind, WithData: fk.withData, Resume: fk.resume})
+	h := &handlerLog{failAt: -1}
+	h.install(conn)
+	applyFaultCaseSettings(c, model, conn)
+	for i := 0; i < len(model.Msgs)+2; i++ {
+		var v interface{}
+		err := conn.ReadJSON(&v)
+		if err != nil {
+			if isConnLevelErr(err) {
+				break
+			}
+			continue // a decoder error for this message; the next call moves on
+		}
+		if i >= len(model.Msgs) {
+			return fmt.Errorf("ReadJSON returned a value (%v) beyond the %d messages of the stream", v, len(model.Msgs))
+		}
+		a := off
+		if fk.resume {
+			a = tr.TotalIn
+		}
+		m := model.Msgs[i]
+		want, werr := refJSON(m.Payload)
+		if werr != nil || !jsonEqual(v, want) {
+			return fmt.Errorf("ReadJSON returned %v for message %d, whose document is %s (reference value %v)", v, i, abbrev(m.Payload), want)
+		}
+		// (ReadJSON returns as soon as the document is complete - an array,
+		// object or string before the message's last bytes or empty final
+		// fragments have arrived - so only the value is judged, not the arrival
+		// of the whole message)
+		_ = a
+	}
+	if tr.ReadFaultFired() {
+		cls := offsetClass(model, off)
+		o.Class("json_cut_" + cls)
+		if cls == "inside_payload" || cls == "inside_header" || cls == "between_fragments" {
+			o.NonTrivial(fmt.Sprintf("js%d/%s", off, fk.name))
+		}
+	}
+	return nil
+}
+
 func runFault(c FaultCase, model *Model, lens []int, off int, fk faultKind, later int, o *Obs) error {
+	if c.JSON {
+		return runFaultJSON(c, model, off, fk, o)
+	}
 	if c.Join {
 		return runFaultJoin(c, model, off, fk, later, o)
 	}
